@@ -23,6 +23,7 @@ def known_words():
     global _vocab
     if _vocab is None:
         words = set()
+        chunks = []
         roots = [HERE, os.path.join(HERE, "props"), os.path.join(os.path.dirname(HERE), "tables")]
         for d in roots:
             for f in sorted(os.listdir(d)):
@@ -36,25 +37,64 @@ def known_words():
                     # rule identifiers ("R6.terminal_score", "I4w.joins_writer") are names of obligations, not of functions
                     text = re.sub(r"\b[A-Z][A-Za-z0-9]{0,3}\.[a-z][a-z_0-9]*", " ", text)
                     words.update(re.findall(r"[A-Za-z_][A-Za-z0-9_]*", text))
+                    chunks.append(text)
         _vocab = words
+        global _literal_text
+        _literal_text = "\n".join(chunks)
     return _vocab
 
 
 def _string_literals(src):
-    """The text of the non-docstring string literals of a Python source."""
-    import io
-    import tokenize
-    out = []
+    """The text of the string literals of a Python source through which a rule can match a name: every literal except docstrings, the
+    arguments that are labels / messages of obligation calls (`ck.req(cond, <rule>, <key>, <where>, <message>..)`, `ck.fail/ok/floor/missing`),
+    the prose assigned to `ck.explanation / trusted / not_decided`, and the left operand of `%` formatting (a message template)."""
+    import ast
     try:
-        for tok in tokenize.generate_tokens(io.StringIO(src).readline):
-            if tok.type == tokenize.STRING:
-                t = tok.string
-                if t.lstrip("rRbBuUfF").startswith(('\"\"\"', "\'\'\'")):
-                    continue
-                out.append(t)
-    except (tokenize.TokenError, IndentationError):
+        tree = ast.parse(src)
+    except SyntaxError:
         return src
+    skip = set()
+
+    def mark(node):
+        for n in ast.walk(node):
+            if isinstance(n, ast.Constant) and isinstance(n.value, str):
+                skip.add(id(n))
+    for node in ast.walk(tree):
+        if isinstance(node, (ast.FunctionDef, ast.Module, ast.ClassDef)) and node.body and isinstance(node.body[0], ast.Expr) and \
+                isinstance(node.body[0].value, ast.Constant) and isinstance(node.body[0].value.value, str):
+            skip.add(id(node.body[0].value))
+        if isinstance(node, ast.Call) and isinstance(node.func, ast.Attribute) and isinstance(node.func.value, ast.Name) and node.func.value.id == "ck":
+            a = node.func.attr
+            if a == "req":
+                for arg in node.args[1:]:
+                    mark(arg)
+            elif a in ("fail", "ok", "floor", "missing", "sample", "note"):
+                for arg in node.args:
+                    mark(arg)
+            for kw in node.keywords:
+                mark(kw.value)
+        if isinstance(node, ast.Assign) and any(isinstance(t, ast.Attribute) and isinstance(t.value, ast.Name) and t.value.id == "ck" for t in node.targets):
+            mark(node.value)
+        if isinstance(node, ast.BinOp) and isinstance(node.op, ast.Mod) and isinstance(node.left, ast.Constant) and isinstance(node.left.value, str):
+            skip.add(id(node.left))
+    out = []
+    for node in ast.walk(tree):
+        if isinstance(node, ast.Constant) and isinstance(node.value, str) and id(node) not in skip:
+            out.append(node.value)
     return "\n".join(out)
+
+
+# method names the rules use for std / core callees: a workspace function that merely shares such a name is known to the rules only
+# under its qualified name (`Type::name`)
+GENERIC_STD = frozenset("""contains contains_key len count position any all min max sum clear extend first last sleep elapsed now""".split())
+_literal_text = None
+
+
+def literal_text():
+    global _literal_text
+    if _literal_text is None:
+        known_words()
+    return _literal_text
 
 
 def last_segment(name):
@@ -71,7 +111,16 @@ def is_unknown_helper(prog, name):
         return False
     if name in getattr(prog, "no_inline", ()):   # functions a rule module identified by role (e.g. after a rename)
         return False
-    return last_segment(name) not in known_words()
+    last = last_segment(name)
+    if last not in known_words():
+        return True
+    if last in GENERIC_STD:
+        # known only under its qualified name
+        n = re.sub(r"<[^<>]*>", "", re.sub(r"<[^<>]*>", "", name)).rstrip(">")
+        segs = n.split("::")
+        qual = "::".join(segs[-2:]) if len(segs) >= 2 else last
+        return qual not in literal_text()
+    return False
 
 
 def _shift(x, loff, boff):
